@@ -135,6 +135,10 @@ def run_case(adoc, c, kind):
   return rec
 
 
+def _run_task(task):
+  return run_case(*task)
+
+
 def features(rec, clause):
   """Narrow facts about the failing case (what known-finding selectors and the grouped summary use); only the facts that
   can matter for the failing clause are reported, so that groups stay readable."""
@@ -195,7 +199,7 @@ def features(rec, clause):
 
 
 def validate(ctx, recs, deep, label):
-  nproc = min(4, max(1, len(recs) // 200))
+  nproc = min(6, max(1, len(recs) // 200))
   parts = [list(range(k, len(recs), nproc)) for k in range(nproc)]
 
   def one(part):
@@ -231,7 +235,21 @@ def validate(ctx, recs, deep, label):
     ctx.count(label + ":" + k, v)
 
 
+def replay(ctx, rc):
+  """Re-runs one recorded case (abstract document + configuration) through the implementation and the trace spec."""
+  case = rc["case"]
+  rec = run_case(case["before"], case["cfg"], "random")
+  if rec is None:
+    raise T.MachineryError("replay: ISD.from_model fails on the document before the filter")
+  rec["id"] = 1
+  ctx.traces += 1
+  ctx.rule = "replay of one recorded case"
+  validate(ctx, [rec], False, "replay")
+
+
 def run(ctx):
+  if ctx.replay_case is not None:
+    return replay(ctx, ctx.replay_case)
   deep = ctx.thorough()
   ctx.rule = ("a case is one (document, configuration) pair run through LCDDocFilter on real model objects; distinct by "
               "(abstract document, configuration); non-trivial = the filter changed the projection of the document")
@@ -246,31 +264,30 @@ def run(ctx):
   pool = ThreadPoolExecutor(max_workers=1)
   design = pool.submit(design_check, deep, [0, 10, 30] if deep else [10])
 
-  # spec -> code: every family document; all 24 configurations (thorough) or a rotating choice of 2 (quick)
-  recs = []
-  ncfg = len(ALL_CFGS) if deep else 2
+  # spec -> code: every family document; 6 of the 24 configurations per document (thorough) or 2 (quick), rotating so that
+  # every configuration meets every sub-family
+  tasks = []
+  ncfg = 6 if deep else 2
   for k, adoc in enumerate(family):
     for j in range(ncfg):
-      c = ALL_CFGS[(k * 5 + j * 7) % len(ALL_CFGS)] if not deep else ALL_CFGS[j]
-      rec = run_case(adoc, c, "family")
-      recs.append(rec)
-  ctx.count("family_cases", len(recs))
+      tasks.append((adoc, ALL_CFGS[(k * 5 + j * 7) % len(ALL_CFGS)], "family"))
+  nfam = len(tasks)
+  ctx.count("family_cases", nfam)
 
   # code -> spec: seeded random richer documents
-  nrand = 12000 if deep else 500
-  skipped = 0
-  made = 0
-  while made < nrand:
+  nrand = 6000 if deep else 500
+  for _ in range(nrand):
     adoc = LD.random_doc(ctx.rng)
     c = {"sa": ctx.rng.choice([0, 5, 10, 17, 30]), "pta": ctx.rng.random() < 0.5,
          "color": ctx.rng.choice(RANDOM_CFG_COLORS), "bg": ctx.rng.choice(RANDOM_CFG_COLORS)}
-    rec = run_case(adoc, c, "random")
-    made += 1
-    if rec is None:
-      skipped += 1
-      continue
-    recs.append(rec)
-  ctx.count("random_cases", made - skipped)
+    tasks.append((adoc, c, "random"))
+
+  import multiprocessing
+  with multiprocessing.get_context("fork").Pool(4 if deep else 3) as mp:
+    out = mp.map(_run_task, tasks, chunksize=64)
+  recs = [r for r in out if r is not None]
+  skipped = len(out) - len(recs)
+  ctx.count("random_cases", nrand - skipped)
   ctx.count("random_inputs_unusable", skipped)
   for n, rec in enumerate(recs):
     rec["id"] = n + 1
